@@ -64,6 +64,7 @@ impl Prop for C01 {
                 prof("candidates", 40_000),
                 prof("many", 2_000),
                 prof("capi", 8_000),
+                prof("capi_long", 800),
             ],
             Tier::Thorough => vec![
                 prof("const", 800_000),
@@ -73,6 +74,7 @@ impl Prop for C01 {
                 prof("candidates", 400_000),
                 prof("many", 30_000),
                 prof("capi", 100_000),
+                prof("capi_long", 10_000),
             ],
         }
     }
@@ -92,6 +94,10 @@ impl Prop for C01 {
                     c
                 })
                 .boxed();
+        }
+        if profile == "capi_long" {
+            let hp = HistParams { min_calls: 2, max_calls: 12, max_batch: 8, ..HistParams::default() };
+            return crate::props::capi_long_case(1..=4, |mp| { mp.p_action = 0.9; mp.p_counter = 0.3; mp.p_limit = 0.3; }, &hp);
         }
         if profile == "capi" {
             // totality for C callers: unknown and aliasing ids, empty and long batches, through the C API
